@@ -85,7 +85,8 @@ def gen_plan(run_seed, idx, tier):
     nparties = max(c['n'] for c in chains) + 1
     plan = {'property': PID, 'run_seed': run_seed, 'idx': idx,
             'knobs': {'fault_free': fault_free, 'thr': 60,
-                      'epoch0_s': rng.choice([1_700_000_000, 100_000])},
+                      'epoch0_s': rng.choice([1_700_000_000, 1_700_000_000, 100_000,
+                                              2 ** 31 - 20, 2 ** 31 + 1000, 2 ** 32 + 12345])},
             'parties': [rng.bytes(32).hex() for _ in range(nparties)],
             'refund_seeds': [rng.bytes(32).hex() for _ in range(nparties)],
             'chains': chains,
